@@ -77,3 +77,21 @@ Example C08_injection_example :
   (exists st', inject_one isx st 0 ex_callee = Done st' /\ map fst (i_tabs st') = [2; 1]) /\
   callee_closed isx st ex_callee = true /\ caller_below st = true.
 Proof. vm_compute. split; [eexists; split; reflexivity | split; reflexivity]. Qed.
+
+(* the whole of RunInjections, all rounds *)
+Theorem C08_run_injections_sound :
+  forall (app : nat -> list val -> val) is_x D tau fuel st st' (rho : choice),
+  run_injections is_x D fuel st = Done st' ->
+  tabs_below st -> i_nt st' <= List.length rho ->
+  cells tau (i_cols st') rho -> Elim.solves app tau (i_rs st') ->
+  exists rho0, List.length rho0 = List.length rho /\ cells tau (i_cols st) rho0 /\ Elim.solves app tau (i_rs st) /\
+               Elim.output app tau (i_rs st') = Elim.output app tau (i_rs st).
+Proof. intros app. exact (run_injections_sound app). Qed.
+
+(* non-vacuity: the run on the example performs a real injection from a state that meets the hypothesis *)
+Example C08_run_example :
+  let isx := fun v => Nat.leb 1000 v in
+  tabs_below (ist_of_rule ex_caller) /\
+  exists st', run_injections isx [(0, ex_callee)] 50 (ist_of_rule ex_caller) = Done st' /\
+              map snd (i_tabs st') = [1; 1] /\ i_nt st' = 3.
+Proof. split; [apply ist_of_rule_below | vm_compute; eexists; split; [reflexivity | split; reflexivity]]. Qed.
